@@ -53,7 +53,7 @@ def renderEntry (k : Bytes) (e : Entry) : Option String :=
     some s!"{renderBytes k}={renderBytes e.val}/{cs}/{e.lease}"
 
 def renderMem (keys : List Bytes) (m : Mem) : String :=
-  let parts := keys.filterMap (fun k => renderEntry k (m k))
+  let parts := keys.filterMap (fun k => renderEntry k (m.get k))
   if parts.isEmpty then "-" else ";".intercalate parts
 
 /-- parse a mutation op line (lhs tokens) into the model mutation -/
